@@ -161,6 +161,10 @@ def serialize(ft, recs, rng):
             if c is not None:
                 out.append(b"  <!-- " + c.replace(b"--", b"- ") + b" -->\n")
             out.append(b'  <string name="' + k.encode() + b'">' + v + b"</string>\n")
+            if rng.random() < 0.08:     # resource types the parser does not read: junk entries
+                out.append(rng.choice([b'  <plurals name="p"><item quantity="one">x</item></plurals>\n',
+                                       b"  <string>no name</string>\n",
+                                       b'  <string-array name="a"><item>x</item></string-array>\n']))
         out.append(b"</resources>\n")
     else:
         for k, v, c in recs:
@@ -251,7 +255,7 @@ HOSTILE = [b"%3000000000$S", b"%" + b"9" * 4301 + b"$S", b"#" + b"9" * 4301, b"%
            nest(b"{ ", b'"a"', b" }", 300), nest(b"<b>", b"x", b"</b>", 300), nest(b"<b>", b"x", b"</b>", 1200),
            nest(b"{ $n ->\n *[a] ", b"x", b"\n }", 120), b"{ " * 400, b"<b>" * 2000,
            b"\\" * 3001, b'"' * 2001, b"'" * 2001, b"&" * 3000, b"&a;" * 2000, b"&amp;" * 2000, b"%S" * 3000,
-           b"%" * 3001, b"\n" * 5000, b" " * 20000, b"a" * 100000, b"<!--" * 1000, b"-" * 5001, b"[" * 3000,
+           b"%" * 3001, b"\n" * 5000, b" " * 6000, b"a" * 8000, b"<!--" * 1000, b"-" * 5001, b"[" * 3000,
            b"\\u" * 2000, b"\xff" * 5000, b"\x00" * 5000, b"width: 1em; " * 1000, b"1" * 5000 + b"em",
            b"#1;" * 3000, b"k" * 5000 + b"=", b"=" * 5000, b"\r" * 5000, b"{ -t(a: 1) }" * 800]
 
@@ -314,7 +318,7 @@ def make_cases(chk):
                       "filter": rng.random() < 0.25,
                       "extra": ["android-dtd"] if ft == "dtd" and rng.random() < 0.3 else None})
 
-    n_struct, n_mut, n_raw = chk.n((400, 850, 350), (5000, 14000, 7000))
+    n_struct, n_mut, n_raw = chk.n((700, 2000, 800), (5000, 15000, 7000))
     for i in range(n_struct):
         ft = FT[i % len(FT)]
         ref, l10n, expect = gen_structured(rng, ft)
@@ -419,11 +423,12 @@ def guarded(fn, seconds):
     """-> {"kind": "ok", ...} | {"kind": "exc", ...} | {"kind": "hang"}"""
     old = signal.signal(signal.SIGALRM, _alarm)
     signal.setitimer(signal.ITIMER_REAL, seconds)
+    t0 = time.time()
     try:
         try:
             res = fn()
             signal.setitimer(signal.ITIMER_REAL, 0)
-            return dict(kind="ok", **res)
+            return dict(kind="ok", t=round(time.time() - t0, 3), **res)
         except SoftTimeout:
             return {"kind": "hang"}
         except BaseException as e:  # noqa: every way of not producing a report is an outcome
@@ -783,7 +788,9 @@ def judge(case, obs):
             if (ft == "android" and op == "merge" and o["type"] == "TypeError"
                     and any("skips.sort" in fr[2] for fr in o["tb"])):
                 sig = "android-two-skips-typeerror"
-            elif o["type"] == "RecursionError" and ft in ("ftl", "android"):
+            elif o["type"] == "RecursionError" and ft in ("ftl", "android") and (
+                    op == "lint" or any("ref_entities = p.parse()" in fr[2] for fr in o["head"])):
+                # the known family: the unguarded parse of the reference in compare(), and lint_file()
                 sig = ft + "-deep-nesting-recursionerror"
             elif ft == "properties" and o["type"] == "MemoryError" \
                     and any(fr[1] == "getPrintfSpecs" for fr in o["tb"]):
@@ -925,7 +932,10 @@ def skeleton_rows(case, obs):
         rows.append(((3, [hp, True, pr_ok]), cls, "add"))
     o = obs["lint"]
     if hp and o["kind"] != "hang":
-        rows.append(((4, [True, True, pr_ok, True, pl_ok]), 3 if o["kind"] == "exc" else 2, "lint"))
+        # an exception of the checks (the body) is not the skeleton's; one of a read/parse step is
+        esc = o["kind"] == "exc" and any("file_parser.parse()" in fr[2] or "file_parser.readFile(" in fr[2]
+                                         for fr in o["head"])
+        rows.append(((4, [True, True, pr_ok, True, pl_ok]), 3 if esc else 2, "lint"))
     return rows
 
 
@@ -1194,6 +1204,7 @@ def run(chk, runner_ok):
     wall = time.time() - t0
     sampled = 0
     skel, skips = [], []
+    slowest = (0.0, None, None)
     for case, obs in zip(cases, results):
         key = (case["ft"], case["ref"], case["l10n"])
         chk.evaluations += 1
@@ -1211,6 +1222,10 @@ def run(chk, runner_ok):
             chk.hist("compare_detail_entries", min(n, 10))
             chk.hist("encoding_warnings", min(sum(m.startswith(FFFD) for m in messages(obs["compare"], "warning")), 6))
             chk.hist("lint_results", min(len(obs["lint"].get("results", [])), 10))
+        if "process" not in obs:
+            for op in OPS:
+                if obs[op]["kind"] == "ok" and obs[op]["t"] > slowest[0]:
+                    slowest = (obs[op]["t"], op, case)
         for sig, detail in judge(case, obs) + judge_android_junk(case, obs):
             chk.fail(sig, describe(case), detail)
         for req, cls, op in skeleton_rows(case, obs):
@@ -1237,6 +1252,11 @@ def run(chk, runner_ok):
         chk.correspond("SKELETON", [d for _, _, d in skel], [c for _, c, _ in skel], outs)
         outs = model.call([r for r, _, _ in skips])
         chk.correspond("SKIPSORT", [d for _, _, d in skips], [i for _, i, _ in skips], outs)
+    if slowest[1]:
+        c = slowest[2]
+        chk.notes.append(f"slowest entry point that answered: {slowest[1]} {slowest[0]}s on a {c['ft']} pair "
+                         f"({c['stream']}; {len(c['ref'])} + {len(c['l10n'])} bytes, l10n starts "
+                         f"{c['l10n'][:40]!r})")
     suite_decode(chk)
     suite_encoding(chk, model)
     suite_format(chk, model)
